@@ -1,9 +1,9 @@
 package core
 
 import (
-	"strings"
 	"fmt"
 	"runtime"
+	"strings"
 	"sync"
 	"testing/synctest"
 	"time"
@@ -26,12 +26,13 @@ type Sched struct {
 	steps   int
 	MaxStep int
 	// counters
-	Switches    int // decisions that released a different task than the previous one
-	TimeAdv     int
+	Switches     int // decisions that released a different task than the previous one
+	TimeAdv      int
 	Uncontrolled int // quiescent points at which an unparked, unfinished task was neither parked nor visibly waiting
-	Trace       []string
-	KeepTrace   bool
-	sig         *Sig
+	Trace        []string
+	tail         []string
+	KeepTrace    bool
+	sig          *Sig
 	// PCT: when PCTDepth > 0 and the run is not a replay, decisions come from a priority-based
 	// strategy (probabilistic concurrency testing): every task gets a random priority, the highest
 	// priority task that can make progress always runs, and at PCTDepth-1 randomly chosen steps the
@@ -45,26 +46,36 @@ type Sched struct {
 	pctChange map[int]bool
 	pctLow    int
 	consecAdv int // time advances in a row
+	// epoch counts the events that can change the outcome of a retried blocking request: a task
+	// that ran some code other than a failed retry, and the passing of simulated time. A task parked
+	// by YieldBlocked is not a candidate again before the epoch has moved: retrying at once would
+	// fail the same way, and a strategy that keeps preferring retrying tasks (PCT when the lock
+	// holder has the lowest priority; the all-zero tail of a replayed schedule) would spin until
+	// the step budget is gone.
+	epoch int
 	// OnRelease, if set, runs on the scheduler goroutine just before a task is released (e.g. to
 	// tell the simulated OS on whose behalf the following operations run).
 	OnRelease func(t *Task)
 }
 
 type Task struct {
-	s        *Sched
-	Actor    int // simulated process the task belongs to (set by the harness)
+	s     *Sched
+	Actor int // simulated process the task belongs to (set by the harness)
 	// Quiet suppresses yield seams for this task until the harness clears it (used to keep the
 	// bookkeeping re-read that follows a successful compare-and-swap atomic with it).
-	Quiet bool
-	ID       int
-	Name     string
-	goid     uint64
-	run      chan struct{}
-	parked   bool
-	label    string
-	finished bool
-	started  bool
-	Err      any
+	Quiet      bool
+	ID         int
+	Name       string
+	goid       uint64
+	run        chan struct{}
+	parked     bool
+	blocked    bool // parked in a retry loop (YieldBlocked)
+	blockedAt  int  // s.epoch when the scheduler saw that park
+	wasBlocked bool // released from such a park
+	label      string
+	finished   bool
+	started    bool
+	Err        any
 }
 
 // Chooser is the numbered choice stream: PRNG-backed when generating, list-backed when replaying.
@@ -138,9 +149,12 @@ func (s *Sched) Go(name string, f func(t *Task)) *Task {
 	return t
 }
 
-func (t *Task) park(label string) {
+func (t *Task) park(label string) { t.parkAs(label, false) }
+
+func (t *Task) parkAs(label string, blocked bool) {
 	t.s.mu.Lock()
 	t.parked = true
+	t.blocked = blocked
 	t.label = label
 	t.s.mu.Unlock()
 	<-t.run
@@ -176,6 +190,42 @@ func (s *Sched) YieldHere(label string) bool {
 	return false
 }
 
+// YieldBlocked is YieldHere for the retry loop of a blocking request that cannot be granted now (a
+// flock somebody else holds): the task is parked and is not released again until another task has
+// been released or simulated time has passed since its last release.
+func (s *Sched) YieldBlocked(label string) bool {
+	if t := s.Current(); t != nil && !t.Quiet {
+		t.parkAs(label, true)
+		return true
+	}
+	return false
+}
+
+// Regain parks the calling goroutine iff it is the goroutine of a task the scheduler has NOT
+// released: a task that slept on the simulated clock (a time.Sleep in the code under test) wakes
+// when the scheduler lets time pass, not when it is released, and would otherwise run on outside the
+// scheduler's control, concurrently with whatever else woke at the same instant (two sleeps that
+// end at the same simulated nanosecond race in real time). Called at the first seam after such a wake-up it
+// puts the task back among the candidates; from there on it runs only when chosen.
+func (s *Sched) Regain(label string) bool {
+	g := runtime.DsimGoid()
+	s.mu.Lock()
+	var me *Task
+	for _, t := range s.tasks {
+		if t.goid == g {
+			me = t
+			break
+		}
+	}
+	if me == nil || me == s.cur || me.Quiet {
+		s.mu.Unlock()
+		return false
+	}
+	s.mu.Unlock()
+	me.park(label)
+	return true
+}
+
 var timeSteps = []time.Duration{time.Millisecond, 20 * time.Millisecond, 150 * time.Millisecond, 2 * time.Second}
 
 // Run drives the tasks until all have finished. It returns an error description on deadlock or
@@ -184,11 +234,23 @@ func (s *Sched) Run() string {
 	for {
 		synctest.Wait()
 		s.mu.Lock()
-		var runnable, waiting []*Task
+		if p := s.cur; p != nil {
+			// a retry that failed again changed nothing; anything else may have
+			if !(p.wasBlocked && p.parked && p.blocked) {
+				s.epoch++
+			}
+			if p.parked && p.blocked {
+				p.blockedAt = s.epoch
+			}
+		}
+		var runnable, waiting, retrying []*Task
 		allDone := true
 		for _, t := range s.tasks {
 			switch {
 			case t.finished:
+			case t.parked && t.blocked && t.blockedAt == s.epoch:
+				allDone = false
+				retrying = append(retrying, t) // nothing has happened since its request failed
 			case t.parked:
 				allDone = false
 				runnable = append(runnable, t)
@@ -204,7 +266,7 @@ func (s *Sched) Run() string {
 		}
 		s.steps++
 		if s.steps > s.MaxStep {
-			return fmt.Sprintf("step budget exhausted (%d)", s.MaxStep)
+			return fmt.Sprintf("step budget exhausted (%d) %s", s.MaxStep, s.Tail())
 		}
 		// candidate list
 		var cands []*Task
@@ -227,6 +289,9 @@ func (s *Sched) Run() string {
 			nTime = len(timeSteps)
 		}
 		if len(cands) == 0 && len(waiting) == 0 {
+			if len(retrying) > 0 {
+				return "deadlock: every unfinished task retries a blocking request nobody can grant"
+			}
 			return "deadlock: no runnable task and nobody waits on time"
 		}
 		d := s.decide(cands, waiting, nTime)
@@ -251,13 +316,17 @@ func (s *Sched) Run() string {
 		}
 		s.last = t
 		s.mu.Lock()
+		t.wasBlocked = t.blocked
 		t.parked = false
+		t.blocked = false
 		s.cur = t
 		lbl := t.label
 		s.mu.Unlock()
 		s.sig.Add("run", t.Name, lbl)
 		if s.KeepTrace {
 			s.Trace = append(s.Trace, fmt.Sprintf("run %s @%s", t.Name, lbl))
+		} else {
+			s.noteTail("run " + t.Name + " @" + lbl)
 		}
 		if s.OnRelease != nil {
 			s.OnRelease(t)
@@ -324,11 +393,37 @@ func (s *Sched) decide(cands, waiting []*Task, nTime int) int {
 func (s *Sched) advance(step int) {
 	s.TimeAdv++
 	s.consecAdv++
+	s.mu.Lock()
+	s.epoch++
+	s.mu.Unlock()
 	s.sig.Add("time", fmt.Sprint(step))
 	if s.KeepTrace {
 		s.Trace = append(s.Trace, fmt.Sprintf("advance clock %v", timeSteps[step]))
+	} else {
+		s.noteTail("advance clock " + timeSteps[step].String())
 	}
 	time.Sleep(timeSteps[step])
+}
+
+// noteTail keeps the last few scheduling events of an untraced run, so that a run that ends in a
+// deadlock or out of steps can say where it was.
+func (s *Sched) noteTail(e string) {
+	if len(s.tail) >= 40 {
+		copy(s.tail, s.tail[1:])
+		s.tail = s.tail[:len(s.tail)-1]
+	}
+	s.tail = append(s.tail, e)
+}
+
+// Tail returns the last scheduling events and every task's state.
+func (s *Sched) Tail() string {
+	ev := s.tail
+	if s.KeepTrace && len(s.Trace) > 40 {
+		ev = s.Trace[len(s.Trace)-40:]
+	} else if s.KeepTrace {
+		ev = s.Trace
+	}
+	return fmt.Sprintf("after %d steps; tasks: %s; last events:\n%s", s.steps, s.States(), strings.Join(ev, "\n"))
 }
 
 // Hash returns the hash of the schedule actually executed.
